@@ -17,6 +17,6 @@ CONSTANTS
   History = FALSE
 VIEW EdgeView
 INVARIANTS TypeOK Bound LruOK
-PROPERTY StepOK
+PROPERTIES ImplConforms ImplExtraOK
 ACTION_CONSTRAINT EmitEdge
 CHECK_DEADLOCK FALSE
